@@ -335,17 +335,19 @@ fn mutate(rng: &mut Rng, p: &mut Vec<u8>, csi: bool) {
             p.truncate(k);
         }
         7 => {
-            // one byte changed; the upper bytes of a count field are left alone and its low byte stays
-            // small (the Coq models iterate / allocate on the unary count)
+            // one byte changed, outside the count fields: a changed count puts the readers out of step with
+            // the layout and what they then take for counts is arbitrary -- the real readers cope (they
+            // run out of data), the Coq models iterate / allocate on unary counts and do not
             if !p.is_empty() {
                 let counts = count_fields(p, csi);
-                let mut k = rng.below(p.len() as u64) as usize;
-                let mut small = false;
-                if let Some(&c) = counts.iter().find(|&&c| c <= k && k <= c + 3) {
-                    k = c;
-                    small = true;
+                for _ in 0..8 {
+                    let k = rng.below(p.len() as u64) as usize;
+                    if counts.iter().any(|&c| c <= k && k <= c + 3) {
+                        continue;
+                    }
+                    p[k] = if rng.chance(1, 2) { p[k] ^ (1 << rng.below(8)) } else { rng.below(256) as u8 };
+                    break;
                 }
-                p[k] = if small { rng.below(7) as u8 } else if rng.chance(1, 2) { p[k] ^ (1 << rng.below(8)) } else { rng.below(256) as u8 };
             }
         }
         8 => {
@@ -356,7 +358,11 @@ fn mutate(rng: &mut Rng, p: &mut Vec<u8>, csi: bool) {
             // CSI: an aux block longer than the header it holds (padding after the names)
             if csi && p.len() >= 16 {
                 let l_aux = i32::from_le_bytes([p[12], p[13], p[14], p[15]]);
-                if l_aux > 0 && 16 + l_aux as usize <= p.len() {
+                // only for an index without reference sequences: after the padding the sync reader is out
+                // of step, and what it would take for counts further on must stay small for the models
+                let nref_at = 16 + l_aux.max(0) as usize;
+                let no_refs = p.get(nref_at..nref_at + 4) == Some(&[0u8, 0, 0, 0][..]);
+                if l_aux > 0 && no_refs {
                     // the sync reader takes the padding for n_ref ...: keep what it then reads as counts small
                     // (the Coq models iterate on unary counts)
                     let pad: Vec<u8> = match rng.below(4) {
